@@ -4,3 +4,32 @@ from .util import mk_matrix
 
 def are_isomorphic(a):
     return bool(_iso(mk_matrix(a['a']), mk_matrix(a['b'])))
+
+
+# ---- Weisfeiler-Lehman correspondence (Model/Wl.v) -------------------------------------------------
+def wl_trace(a):
+    """color_weisfeiler_lehman with the kernel call intercepted: the CSR arrays and the `powers` table returned
+    here are the very objects the implementation handed to weisfeiler_lehman_coloring (floats as exact ratios)."""
+    import importlib
+    import numpy as np
+    from .util import tolist
+    W = importlib.import_module('sknetwork.topology.weisfeiler_lehman')
+    orig = W.weisfeiler_lehman_coloring
+    calls = []
+
+    def spy(indptr, indices, labels, powers, max_iter):
+        calls.append(dict(indptr=[int(x) for x in np.asarray(indptr)], indices=[int(x) for x in np.asarray(indices)],
+                          powers=[list(float(x).as_integer_ratio()) for x in np.asarray(powers)],
+                          max_iter=int(max_iter)))
+        return orig(indptr, indices, labels, powers, max_iter)
+
+    W.weisfeiler_lehman_coloring = spy
+    try:
+        colors = W.color_weisfeiler_lehman(mk_matrix(a['m']), max_iter=a.get('max_iter', -1))
+    finally:
+        W.weisfeiler_lehman_coloring = orig
+    return dict(colors=tolist(colors), calls=calls)
+
+
+def are_isomorphic_k(a):
+    return bool(_iso(mk_matrix(a['a']), mk_matrix(a['b']), max_iter=a.get('max_iter', -1)))
